@@ -2237,9 +2237,13 @@ class Parameters:
 
             updates[pname] = new_val
 
-        with edit_constant(self_.self):
-            with _syncing(self_.self, updates):
-                self_.update(updates)
+        # Watchers are called once the values are in place and the object
+        # is back to normal: an assignment made by a watcher is an ordinary
+        # assignment (it overrides a link, it cannot rebind a constant)
+        with _batch_call_watchers(self_.self):
+            with edit_constant(self_.self):
+                with _syncing(self_.self, updates):
+                    self_.update(updates)
 
     def _resolve_ref(self_, pobj, value, defer=False):
         """
@@ -2285,8 +2289,11 @@ class Parameters:
         try:
             if isinstance(awaitable, types.AsyncGeneratorType):
                 async for new_obj in awaitable:
-                    with _syncing(self_.self, (pname,)):
-                        self_.update({pname: new_obj})
+                    if ref is not Undefined and private.refs.get(pname, Undefined) is not ref:
+                        break
+                    with _batch_call_watchers(self_.self):
+                        with _syncing(self_.self, (pname,)):
+                            self_.update({pname: new_obj})
             else:
                 # Await outside the syncing scope so that an assignment
                 # made while the awaitable is pending overrides the reference
@@ -2294,8 +2301,9 @@ class Parameters:
                     new_obj = await awaitable
                 except Skip:
                     return
-                with _syncing(self_.self, (pname,)):
-                    self_.update({pname: new_obj})
+                with _batch_call_watchers(self_.self):
+                    with _syncing(self_.self, (pname,)):
+                        self_.update({pname: new_obj})
         finally:
             # Ensure we clean up but only if the task matches the currrent task
             if private.async_refs.get(pname) is current_task:
